@@ -108,3 +108,444 @@ def facts(ctx):
                  "tolerated_exact": [consts[n] for n in eqs], "tolerated_prefixes": [cval(n, "tol") for n in pres],
                  "legacy_tolerated": consts[legacy_const], "success_table": [consts[n] for n in succ],
                  "informational_table": [consts[n] for n in info]}
+
+
+# ------------------------------------------------------------------ oracle (the property text, on implementation output only)
+
+def spec_conditions(dump):
+    """(valid_cond, trusted_cond) of the property text for a dumped results object"""
+    act = dump["active"]
+    succ = [s[0] for s in act[0]] if act is not None else []
+    fails = [s[0] for s in act[2]] if act is not None else []
+    for d in dump["deltas"] or []:
+        fails += [s[0] for s in d[3]]
+    valid = act is not None and VALIDATED in succ and INSIDE in succ and all(tolerated(c) for c in fails)
+    trusted = valid and TRUSTED_CODE in succ and not fails
+    return valid, trusted, fails
+
+
+def check_state(state, dump):
+    valid, trusted, fails = spec_conditions(dump)
+    if state == "Valid" and not valid:
+        return f"state Valid although the Valid conditions do not hold (failures {fails[:4]})"
+    if state == "Trusted" and not trusted:
+        return f"state Trusted although the Trusted conditions do not hold (failures {fails[:4]})"
+    if state not in ORDER:
+        return f"unexpected state {state!r}"
+    return None
+
+
+def route(case):
+    """where the property says statuses go: expected buckets after the add_status sequence"""
+    act = None if case["active"] is None else [list(x) for x in case["active"]]
+    ds = None if case["deltas"] is None else [[d[0], list(d[1]), list(d[2]), list(d[3])] for d in case["deltas"]]
+    for st in case["ops"]:
+        code, k, uri = st
+        if uri is None:
+            if act is None:
+                act = [[], [], []]
+            act[k].append(st)
+        else:
+            if ds is None:
+                ds = []
+            for d in ds:
+                if d[0] == uri:
+                    d[1 + k].append(st)
+                    break
+            else:
+                d = [uri, [], [], []]
+                d[1 + k].append(st)
+                ds.append(d)
+    return {"active": act, "deltas": ds}
+
+
+def canon_routing(dump):
+    """which of several deltas with the same URI receives a status is not part of the property: merge them"""
+    ds = None
+    if dump["deltas"] is not None:
+        ds, order = {}, []
+        for d in dump["deltas"]:
+            if d[0] not in ds:
+                ds[d[0]] = [[], [], []]
+                order.append(d[0])
+            for k in range(3):
+                ds[d[0]][k] += [json.dumps(x) for x in d[1 + k]]
+        ds = [[u] + [sorted(b) for b in ds[u]] for u in order]
+    return {"active": dump["active"], "deltas": ds}
+
+
+# ------------------------------------------------------------------ generation
+
+CLASS_REPS = {"V": VALIDATED, "I": INSIDE, "T": TRUSTED_CODE, "U": UNTRUSTED, "C": TOL_PREFIX + "credential.untrusted",
+              "O": "assertion.dataHash.mismatch", "N": "timeStamp.untrusted", "S": "assertion.dataHash.match"}
+CLASSES = "VITUCONS"
+UNKNOWN = ["x.unknown", "cawg.x509.custom", "cawg.x509.", "cawg.x509", "cawg.", "cawg.x50", "Cawg.x509.a", "signingCredential.untrusted ",
+           "signingCredential.untrusteD", "signingCredential.untruste", "", "claimSignature.validated.extra", "ClaimSignature.validated",
+           " claimSignature.validated", "cawg.x509.é", "é", "signingCredential.trusted\u0000", "xcawg.x509.a"]
+URIS = [None, None, None, "u1", "u2", "self#jumbf=/c2pa/urn:c2pa:1/c2pa.assertions/c2pa.ingredient.v3", ""]
+
+
+def multisets(k):
+    out = []
+    for n in range(k + 1):
+        out += list(itertools.combinations_with_replacement(CLASSES, n))
+    return out
+
+
+def class_family():
+    """pairwise-complete enumeration over code classes: (every active manifest up to 3+1+2 codes) x (representative deltas)
+    and (every delta configuration) x (representative active manifests)"""
+    nat = {"s": 0, "i": 1, "f": 2}
+
+    def sts(cl, k):
+        return [[CLASS_REPS[c], k, None] for c in cl]
+    S_opts, F_opts = multisets(3), multisets(2)
+    I_opts = [(), ("V", "I", "T"), ("O",)]
+    rep_deltas = [None, [], [["u1", [], [], sts("U", 2)]], [["u1", sts("VIT", 0), [], sts("O", 2)]],
+                  [["u1", [], [], []], ["u2", [], [], sts("C", 2)]], [["u1", [], sts("O", 1), []]]]
+    out = []
+    for dl in rep_deltas:
+        out.append({"k": "results", "active": None, "deltas": dl})
+        for s in S_opts:
+            for i in I_opts:
+                for f in F_opts:
+                    out.append({"k": "results", "active": [sts(s, 0), sts(i, 1), sts(f, 2)], "deltas": dl})
+    rep_active = [None] + [[sts(s, 0), [], sts(f, 2)] for n in range(4) for s in itertools.combinations("VIT", n)
+                           for f in [(), ("U",), ("C",), ("O",), ("U", "C")]]
+    dF = [(), ("U",), ("C",), ("O",), ("U", "C"), ("U", "O"), ("V",), ("S",)]
+    delta_cfgs = [None, []]
+    for s in [(), ("V", "I", "T")]:
+        for f in F_opts:
+            delta_cfgs.append([["u1", sts(s, 0), [], sts(f, 2)]])
+    for f1 in dF:
+        for f2 in dF:
+            delta_cfgs.append([["u1", [], [], sts(f1, 2)], ["u2", [], [], sts(f2, 2)]])
+    for a in rep_active:
+        for dl in delta_cfgs:
+            out.append({"k": "results", "active": a, "deltas": dl})
+    extras = [["assertion.dataHash.mismatch", 2, None], ["general.error", 2, "u1"], ["x.unknown", 2, "u3"],
+              [UNTRUSTED, 2, None], [TOL_PREFIX + "x", 2, "u2"], ["cawg.x50", 2, None]]
+    for n, c in enumerate(out):
+        c["ops"] = []
+        c["extra"] = extras[n % len(extras)]
+        c["fam"] = "class"
+    return out
+
+
+def gen_random(rng, pool, natural):
+    def code():
+        r = rng.random()
+        if r < 0.45:
+            return rng.choice([VALIDATED, INSIDE, TRUSTED_CODE, UNTRUSTED, TOL_PREFIX + rng.choice(["a", "credential.untrusted", ""])])
+        if r < 0.8:
+            return rng.choice(pool)
+        return rng.choice(UNKNOWN)
+
+    def st(bucket=None, uri="rand"):
+        c = code()
+        k = natural(c) if rng.random() < 0.7 else rng.randrange(3)
+        if bucket is not None and rng.random() < 0.8:
+            k = bucket
+        return [c, k, (rng.choice(URIS) if uri == "rand" else uri)]
+
+    def sc(bias_good):
+        s = [st(0, None) for _ in range(rng.choice([0, 1, 2, 3]))]
+        if bias_good:
+            s += [[VALIDATED, 0, None], [INSIDE, 0, None]] + ([[TRUSTED_CODE, 0, None]] if rng.random() < 0.6 else [])
+            rng.shuffle(s)
+        i = [st(1, None) for _ in range(rng.choice([0, 0, 1, 2]))]
+        f = [st(2, None) for _ in range(rng.choice([0, 0, 0, 1, 2]))]
+        if bias_good and rng.random() < 0.7:
+            f = [x for x in f if tolerated(x[0])]
+        return [s, i, f]
+    good = rng.random() < 0.6
+    active = None if rng.random() < 0.12 else sc(good)
+    r = rng.random()
+    deltas = None if r < 0.3 else [] if r < 0.4 else [[rng.choice(["u1", "u2", "u1", ""])] + sc(False) for _ in range(rng.choice([1, 1, 2, 3]))]
+    if deltas and good and rng.random() < 0.7:
+        for d in deltas:
+            d[3] = [x for x in d[3] if tolerated(x[0])]
+    ops = [st() for _ in range(rng.choice([0, 0, 1, 2, 3, 5, 8]))]
+    if good and rng.random() < 0.6:
+        ops = [o for o in ops if o[1] != 2 or tolerated(o[0])]
+    extra = None if rng.random() < 0.2 else [code(), 2, rng.choice(URIS)]
+    c = {"k": "results", "active": active, "deltas": deltas, "ops": ops, "extra": extra, "fam": "random"}
+    if rng.random() < 0.5:
+        c["decoy_status"] = [code() for _ in range(rng.randrange(3))]
+        c["decoy_state"] = rng.choice(["Invalid", "Valid", "Trusted"])
+    return c
+
+
+def legacy_cases(rng, pool, n):
+    out = []
+    for st in [None, [], [UNTRUSTED], [UNTRUSTED, UNTRUSTED], [TOL_PREFIX + "a"], [UNTRUSTED, "general.error"], [VALIDATED], [""],
+               ["signingCredential.untrusted "], [TRUSTED_CODE]]:
+        for vt in (True, False):
+            for hook in (False, True):
+                out.append({"k": "legacy", "status": st, "verify_trust": vt, "hook": hook, "stored_state": None})
+    for _ in range(n):
+        r = rng.random()
+        st = None if r < 0.1 else [rng.choice([UNTRUSTED] * 6 + pool + UNKNOWN) if rng.random() < 0.5 else UNTRUSTED for _ in range(rng.randrange(0, 4))]
+        out.append({"k": "legacy", "status": st, "verify_trust": rng.random() < 0.6, "hook": rng.random() < 0.5,
+                    "stored_state": rng.choice([None, "Invalid", "Valid", "Trusted"])})
+    return out
+
+
+def corpus():
+    p = os.path.join(common.VERIF, "corpus", "C04.jsonl")
+    if not os.path.exists(p):
+        return []
+    return [json.loads(l) for l in open(p) if l.strip()]
+
+
+# ------------------------------------------------------------------ model expressions
+
+KIND = ["KSuccess", "KInformational", "KFailure"]
+KNO = {"KSuccess": 0, "KInformational": 1, "KFailure": 2}
+IMPORTS = ("From C2PA Require Import Base.Bytes Model.ByteStr Generated.C04_facts Model.ValState.\n"
+           "From Coq Require Import NArith List.\nImport ListNotations.\nOpen Scope N_scope.\n")
+
+
+class Names:
+    """byte strings are bound once per evaluation file to keep the case terms small"""
+    def __init__(self):
+        self.m = {}
+
+    def ref(self, s):
+        if s not in self.m:
+            self.m[s] = f"z{len(self.m)}"
+        return self.m[s]
+
+    def prelude(self):
+        def lit(k):
+            if all(32 <= ord(ch) < 127 for ch in k):
+                return 'b "%s"' % k.replace('"', '""')       # string literals parse much faster than numeral lists
+            return coq_str(k)
+        return "From Coq Require Import String.\n" + "".join(f"Definition {v} : list N := {lit(k)}.\n" for k, v in self.m.items())
+
+
+def st_expr(nm, st):
+    return f"St {nm.ref(st[0])} {KIND[st[1]]} {'None' if st[2] is None else '(Some %s)' % nm.ref(st[2])}"
+
+
+def sc_expr(nm, s, i, f):
+    return "(SC %s %s %s)" % tuple(coq_list([st_expr(nm, x) for x in l]) for l in (s, i, f))
+
+
+def results_args(nm, c):
+    a = "None" if c["active"] is None else f"(Some {sc_expr(nm, *c['active'])})"
+    d = "None" if c["deltas"] is None else "(Some " + coq_list([f"D {nm.ref(x[0])} {sc_expr(nm, x[1], x[2], x[3])}" for x in c["deltas"]]) + ")"
+    e = "None" if not c.get("extra") else f"(Some ({st_expr(nm, c['extra'])}))"
+    return a, d, e
+
+
+def batch_eval(tag, groups, shards=8):
+    """groups: list of (make_expr(nm, item), items, batch).  One Coq list per batch, all batches in one coq_eval call
+    (few coqc processes: start-up dominates).  Returns one flat result list per group."""
+    nm = Names()
+    exprs, owner = [], []
+    for g, (mk, items, batch) in enumerate(groups):
+        for j in range(0, len(items), batch):
+            exprs.append(coq_list([mk(nm, it) for it in items[j:j + batch]]))
+            owner.append(g)
+    out = [[] for _ in groups]
+    if not exprs:
+        return out
+    res = common.coq_eval(tag, IMPORTS + nm.prelude(), exprs, shard_size=max(1, (len(exprs) + shards - 1) // shards))
+    for g, r in zip(owner, res):
+        out[g] += r if isinstance(r, list) else [r]
+    return out
+
+
+def bytes_to_str(l):
+    return bytes(l).decode("utf-8") if isinstance(l, list) else ""
+
+
+def conv_status(t):
+    uri = t["suri"]
+    return [bytes_to_str(t["scode"]), KNO[t["skind"]], None if uri == "None" else bytes_to_str(uri[1])]
+
+
+def conv_sc(t):
+    return [[conv_status(x) for x in t[k]] for k in ("success", "informational", "failure")]
+
+
+def conv_results(t):
+    a, d = t["active"], t["deltas"]
+    return {"active": None if a == "None" else conv_sc(a[1]),
+            "deltas": None if d == "None" else [[bytes_to_str(x["duri"])] + conv_sc(x["dcodes"]) for x in d[1]]}
+
+
+def opt_state(t):
+    return None if t == "None" else t[1]
+
+
+# ------------------------------------------------------------------ evaluation
+
+def evaluate(ctx, cases, with_model=True):
+    for i, c in enumerate(cases):
+        c["id"] = i
+    impl = common.run_harness("c04", cases)
+    full = [c for c in cases if c["k"] == "results" and c.get("fam") != "class"]
+    compact = [c for c in cases if c["k"] == "results" and c.get("fam") == "class"]
+    legacy = [c for c in cases if c["k"] == "legacy"]
+    logk = [c for c in cases if c["k"] == "logkind"]
+    model = {}
+    if with_model:
+        def mk_full(nm, c):
+            a, d, e = results_args(nm, c)
+            return "run_results %s %s %s %s" % (a, d, coq_list([st_expr(nm, o) for o in c["ops"]]), e)
+        mk_compact = lambda nm, c: "run_states %s %s %s" % results_args(nm, c)
+        mk_legacy = lambda nm, c: "legacy_state %s %s" % (
+            "true" if c["verify_trust"] else "false",
+            "None" if c["status"] is None else "(Some " + coq_list([nm.ref(x) for x in c["status"]]) + ")")
+        mk_logk = lambda nm, c: "log_kind " + nm.ref(c["code"])
+        rf, rc, rl, rk = batch_eval("C04", [(mk_full, full, 1), (mk_compact, compact, 500), (mk_legacy, legacy, 200), (mk_logk, logk, 200)])
+        for c, r in zip(full, rf):
+            model[c["id"]] = (r[0], r[0], opt_state(r[2]), conv_results(r[1]))
+        for c, r in zip(compact, rc):
+            model[c["id"]] = (r[0], r[0], opt_state(r[1]), None)
+        for c, r in zip(legacy, rl):
+            model[c["id"]] = r
+        for c, r in zip(logk, rk):
+            model[c["id"]] = KNO[r]
+    stats = {"results": 0, "legacy": 0, "logkind": 0, "states": {"Invalid": 0, "Valid": 0, "Trusted": 0}, "no_active": 0,
+             "deltas": {"none": 0, "0": 0, "1": 0, "2": 0, "3+": 0}, "with_ops": 0, "extra_non_tolerated": 0, "extra_tolerated": 0,
+             "legacy_states": {"Invalid": 0, "Valid": 0, "Trusted": 0}, "legacy_known_class": 0, "family": {}}
+    distinct = set()
+    for c in cases:
+        r = impl[c["id"]]
+        mi = dict(c)
+        if r["r"] in ("panic", "crash"):
+            ctx.report_violation(c, f"implementation panicked: {r.get('msg')}", mi)
+            continue
+        if c["k"] == "results":
+            stats["results"] += 1
+            stats["family"][c.get("fam", "corpus")] = stats["family"].get(c.get("fam", "corpus"), 0) + 1
+            stats["states"][r["state"]] = stats["states"].get(r["state"], 0) + 1
+            nd = c["deltas"]
+            stats["deltas"]["none" if nd is None else str(len(nd)) if len(nd) < 3 else "3+"] += 1
+            if r["dump"]["active"] is None:
+                stats["no_active"] += 1
+            elif any(r["dump"]["active"]) or r["dump"]["deltas"]:
+                distinct.add(json.dumps([c["active"], c["deltas"], c["ops"]], sort_keys=True))
+            if c["ops"]:
+                stats["with_ops"] += 1
+            # ---- oracle
+            why = check_state(r["state"], r["dump"])
+            if why:
+                ctx.report_violation(c, why, mi)
+            why = check_state(r["reader_state"], r["dump"])
+            if why:
+                ctx.report_violation(c, "through Reader::from_json with a validation_results object: " + why, mi)
+            want = route(c)
+            if canon_routing(r["dump"]) != canon_routing(want):
+                ctx.report_violation(c, f"add_status routing: buckets {json.dumps(r['dump'])[:300]} expected {json.dumps(want)[:300]}", mi)
+            if c.get("extra"):
+                if tolerated(c["extra"][0]):
+                    stats["extra_tolerated"] += 1
+                    if ORDER.get(r["state_extra"], 9) > ORDER.get(r["state"], 0):
+                        ctx.report_violation(c, f"adding a failure raised the state from {r['state']} to {r['state_extra']}", mi)
+                else:
+                    stats["extra_non_tolerated"] += 1
+                    if r["state_extra"] != "Invalid":
+                        ctx.report_violation(c, f"after adding the non-tolerated failure {c['extra'][0]!r} the state is {r['state_extra']}", mi)
+            # ---- correspondence
+            if c["id"] in model:
+                ms, mrs, mex, mdump = model[c["id"]]
+                iv = (r["state"], r["reader_state"], r["state_extra"])
+                if iv != (ms, mrs, mex) or (mdump is not None and mdump != r["dump"]):
+                    ctx.disagreements.append({"case": c, "impl": [iv, r["dump"]], "model": [(ms, mrs, mex), mdump]})
+        elif c["k"] == "legacy":
+            stats["legacy"] += 1
+            if r["r"] != "ok":
+                ctx.report_violation(c, f"Reader::from_json failed: {r}", mi)
+                continue
+            stats["legacy_states"][r["state"]] += 1
+            known = c["status"] is None or all(x == UNTRUSTED for x in c["status"])
+            mi["known_class"] = known
+            stats["legacy_known_class"] += 1 if known else 0
+            # oracle: without a results object no success code is available, so nothing supports Valid or Trusted
+            if r["state"] != "Invalid":
+                if c["status"] and any(not tolerated(x) for x in c["status"]):
+                    ctx.report_violation(c, f"legacy fallback: state {r['state']} with a non-tolerated failure in the status list", mi)
+                elif r["state"] == "Trusted" and c["status"]:
+                    ctx.report_violation(c, f"legacy fallback: state Trusted although failures {c['status'][:3]} are listed", mi)
+                else:
+                    ctx.report_violation(c, f"legacy fallback: state {r['state']} with no evidence that the claim signature validated", mi)
+            if c["id"] in model and model[c["id"]] != r["state"]:
+                ctx.disagreements.append({"case": c, "impl": r["state"], "model": model[c["id"]]})
+        else:
+            stats["logkind"] += 1
+            if c["id"] in model and model[c["id"]] != r["kind"]:
+                ctx.disagreements.append({"case": c, "impl": r["kind"], "model": model[c["id"]]})
+            # oracle: the codes the decision looks for must be filed where it looks
+            if c["code"] in (VALIDATED, INSIDE, TRUSTED_CODE) and r["kind"] != 0:
+                ctx.report_violation(c, f"log_kind files {c['code']} as kind {r['kind']}, not success", mi)
+            if c["code"] == UNTRUSTED and r["kind"] != 2:
+                ctx.report_violation(c, f"log_kind files {c['code']} as kind {r['kind']}, not failure", mi)
+    return stats, len(distinct)
+
+
+def build_cases(ctx, nrand, nclass, nlegacy):
+    f = getattr(ctx, "facts", None)
+    if f is None:
+        try:
+            facts(ctx)
+            f = ctx.facts
+        except TieBroken:
+            # the source no longer parses (already reported by the facts step): generate from the pinned codes
+            f = {"consts": {"A": VALIDATED, "B": INSIDE, "C": TRUSTED_CODE, "D": UNTRUSTED, "E": "general.error",
+                            "F": "assertion.dataHash.mismatch", "G": "timeStamp.untrusted"},
+                 "success_table": [VALIDATED, INSIDE, TRUSTED_CODE], "informational_table": ["timeStamp.untrusted"]}
+    pool = sorted(set(f["consts"].values()))
+    succ, info = set(f["success_table"]), set(f["informational_table"])
+    natural = lambda c: 0 if c in succ else 1 if c in info else 2
+    cases = corpus()
+    fam = class_family()
+    total_class = len(fam)
+    if nclass is not None and nclass < len(fam):
+        # stratified: half of the sample has both claim-signature success codes in the active manifest's success list
+        def good(c):
+            s = [x[0] for x in c["active"][0]] if c["active"] else []
+            return VALIDATED in s and INSIDE in s
+        g, ng = [c for c in fam if good(c)], [c for c in fam if not good(c)]
+        fam = ctx.rng.sample(g, min(len(g), nclass // 2)) + ctx.rng.sample(ng, nclass - min(len(g), nclass // 2))
+    cases += fam
+    cases += [gen_random(ctx.rng, pool, natural) for _ in range(nrand)]
+    cases += legacy_cases(ctx.rng, pool, nlegacy)
+    cases += [{"k": "logkind", "code": c} for c in pool + UNKNOWN + [TOL_PREFIX + "a"]]
+    return cases, total_class
+
+
+def run(ctx):
+    if not getattr(ctx, "no_build", False):
+        common.build_harness()
+    exhaustive = False
+    if ctx.replay:
+        cases = [ctx.replay["case"]] if "case" in ctx.replay else [d["case"] for d in ctx.replay.get("disagreements", [])]
+        total_class = 0
+    else:
+        cases, total_class = build_cases(ctx, 800 if ctx.quick() else 8000, 4000 if ctx.quick() else None, 200 if ctx.quick() else 2000)
+        exhaustive = not ctx.quick()
+    stats, distinct = evaluate(ctx, cases)
+    ctx.coverage.update({
+        "evaluations": len(cases), "distinct_nontrivial": distinct,
+        "rule": "corpus + pairwise-complete enumeration over the 8 code classes (validated, insideValidity, trusted, untrusted, cawg.x509.*, "
+                "other failure, informational, other success) placed in the success/informational/failure lists of the active manifest and of "
+                "0-2 ingredient deltas (quick: a seeded sample of it) + seeded random placements/add_status sequences over every known code and "
+                "unknown/near-miss codes + legacy status lists + log_kind of every code; non-trivial = a results object with an active manifest "
+                "holding at least one status; distinct by (placement, ops)",
+        "class_family_size": total_class, "class_family_complete": exhaustive,
+        "distribution": stats, "traces_validated_against_impl": len(cases),
+        "samples": [{k: v for k, v in c.items() if k != "id"} for c in cases[:2] + cases[len(cases) // 2: len(cases) // 2 + 2]],
+    })
+
+
+def search(ctx):
+    """tie broken and nothing found yet: the whole class family and more random cases, oracle only"""
+    common.build_harness()
+    ctx.facts = None
+    cases, _ = build_cases(ctx, 20000, None, 2000)
+    evaluate(ctx, cases, with_model=False)
+    ctx.coverage["search_evaluations"] = len(cases)
